@@ -26,7 +26,7 @@ table = ("Fresh sub-agents, each given only one property's text and a scratch wo
          "reported**. More than half of those only after the rule they motivated was added (C01.g, C01.h, C02.c, C02.d, C02.a/names, "
          "C03.d, C03.f, C03.g, C04.e, C04.f, C04.g, C05.f, C05.g, C06.e, C06.f, C06.g, C06.h, C07.c, C07.d, C09.c, C09.d, C09.e, C09.f, "
          "C10.c, C10.d, C11.f, C12.g, C12.k, C12.l, C13.g, C14.f, C15.e-i, C16.e, C16.e/template, C16.g, C17.e, C18.c, C18.d, C18.e, "
-         "C19.d/decl, C20.b/unpaired-pop, C20.g and, in the last cycle, C05.i, C07.f, C08.d, C09.g, C10.g, C10.h, C13.j, C14.h, C14.i were written because a seeded change slipped through), each formulated as a necessary "
+         "C19.d/decl, C20.b/unpaired-pop, C20.g and, in the last cycle, C05.i, C07.f, C08.d, C09.g, C10.g, C10.h, C12.m, C13.j, C14.h, C14.i, C14.j were written because a seeded change slipped through), each formulated as a necessary "
          "condition of the property over the whole library or all sibling sites, not as a match of the patch; a check listed for a "
          "change of another property reports it because the change breaks that property's rule too. Writing these rules also turned "
          "up six of the genuine defects of section 0.4.\n\n| change | what it does | reported by |\n|---|---|---|\n" % (total, caught, total)
